@@ -14,8 +14,10 @@ def col_of(expr, param):
     """'topologies' for `edgelist.topologies` (optionally wrapped in list())."""
     while isinstance(expr, ast.Call) and txt(expr.func) in ("list", "tuple", "iter") and len(expr.args) == 1:
         expr = expr.args[0]
-    if isinstance(expr, ast.Attribute) and txt(expr.value) == param and expr.attr in COLS:
-        return expr.attr
+    # `edgelist._topologies` is the backing field of the read-only view `edgelist.topologies` (it appears when a method of
+    # the edge list is spliced into the converter)
+    if isinstance(expr, ast.Attribute) and txt(expr.value) == param and (expr.attr in COLS or (expr.attr.startswith("_") and expr.attr[1:] in COLS)):
+        return expr.attr.lstrip("_")
     return None
 
 
